@@ -8,32 +8,37 @@ import WhatwgUrl.Generated.Facts
 namespace WhatwgUrl.Props.C16
 open WhatwgUrl WhatwgUrl.Impl
 
-/-- every `WithX` parser option writes exactly its namesake field of `parserOptions` -/
-theorem C16_option_writes : Generated.parserOptionWrites = [
-    ("WithReportValidationErrors", ["reportValidationErrors"]),
-    ("WithFailOnValidationError", ["failOnValidationError"]),
-    ("WithLaxHostParsing", ["laxHostParsing"]),
-    ("WithCollapseConsecutiveSlashes", ["collapseConsecutiveSlashes"]),
-    ("WithAcceptInvalidCodepoints", ["acceptInvalidCodepoints"]),
-    ("WithPreParseHostFunc", ["preParseHostFunc"]),
-    ("WithPostParseHostFunc", ["postParseHostFunc"]),
-    ("WithPercentEncodeSinglePercentSign", ["percentEncodeSinglePercentSign"]),
-    ("WithAllowSettingPathForNonBaseUrl", ["allowSettingPathForNonBaseUrl"]),
-    ("WithSkipWindowsDriveLetterNormalization", ["skipWindowsDriveLetterNormalization"]),
-    ("WithSpecialSchemes", ["specialSchemes"]),
-    ("WithEncodingOverride", ["encodingOverride"]),
-    ("WithPathPercentEncodeSet", ["pathPercentEncodeSet"]),
-    ("WithQueryPercentEncodeSet", ["queryPercentEncodeSet"]),
-    ("WithSpecialQueryPercentEncodeSet", ["specialQueryPercentEncodeSet"]),
-    ("WithFragmentPathPercentEncodeSet", ["fragmentPercentEncodeSet"]),
-    ("WithSpecialFragmentPathPercentEncodeSet", ["specialFragmentPercentEncodeSet"]),
-    ("WithSkipTrailingSlashNormalization", ["skipTrailingSlashNormalization"]),
-    ("WithSkipEqualsForEmptySearchParamsValue", ["skipEqualsForEmptySearchParamsValue"])] := by decide
+/-- every `WithX` parser option, EXECUTED alone (`url.NewParser(WithX(arg))`, options read back through the hook),
+    changes exactly its namesake field of the parser's options and nothing else. Behavioural: independent of how the
+    constructors are written. (`WithFragmentPathPercentEncodeSet` / `WithSpecialFragmentPathPercentEncodeSet` name the
+    fragment sets; a constructor writing the wrong field — the repaired F13 — changes this table.) -/
+theorem C16_option_effects : Generated.parserOptionEffects = [
+    ("WithReportValidationErrors", ["ReportValidationErrors"]),
+    ("WithFailOnValidationError", ["FailOnValidationError"]),
+    ("WithLaxHostParsing", ["LaxHostParsing"]),
+    ("WithCollapseConsecutiveSlashes", ["CollapseConsecutiveSlashes"]),
+    ("WithAcceptInvalidCodepoints", ["AcceptInvalidCodepoints"]),
+    ("WithPreParseHostFunc", ["PreParseHostFunc"]),
+    ("WithPostParseHostFunc", ["PostParseHostFunc"]),
+    ("WithPercentEncodeSinglePercentSign", ["PercentEncodeSinglePercentSign"]),
+    ("WithAllowSettingPathForNonBaseUrl", ["AllowSettingPathForNonBaseUrl"]),
+    ("WithSkipWindowsDriveLetterNormalization", ["SkipWindowsDriveLetterNormalization"]),
+    ("WithSpecialSchemes", ["SpecialSchemes"]),
+    ("WithSkipTrailingSlashNormalization", ["SkipTrailingSlashNormalization"]),
+    ("WithEncodingOverride", ["EncodingOverride"]),
+    ("WithPathPercentEncodeSet", ["PathPercentEncodeSet"]),
+    ("WithQueryPercentEncodeSet", ["QueryPercentEncodeSet"]),
+    ("WithSpecialQueryPercentEncodeSet", ["SpecialQueryPercentEncodeSet"]),
+    ("WithFragmentPathPercentEncodeSet", ["FragmentPercentEncodeSet"]),
+    ("WithSpecialFragmentPathPercentEncodeSet", ["SpecialFragmentPercentEncodeSet"]),
+    ("WithSkipEqualsForEmptySearchParamsValue", ["SkipEqualsForEmptySearchParamsValue"])] := by decide
 
-/-- every canonicalizer option writes exactly its namesake field of `profile` -/
-theorem C16_canon_option_writes : Generated.canonOptionWrites = [
-    ("WithRemoveUserInfo", ["removeUserInfo"]), ("WithRemovePort", ["removePort"]), ("WithRemoveFragment", ["removeFragment"]),
-    ("WithRepeatedPercentDecoding", ["repeatedPercentDecoding"]), ("WithDefaultScheme", ["defaultScheme"]), ("WithSortQuery", ["sortQuery"])] := by decide
+/-- every canonicalizer option, executed alone (`canonicalizer.New(WithX(arg))`), changes exactly its namesake field of
+    the profile and no option of the underlying parser -/
+theorem C16_canon_option_effects : Generated.canonOptionEffects = [
+    ("WithRemoveUserInfo", ["RemoveUserInfo"]), ("WithRemovePort", ["RemovePort"]), ("WithRemoveFragment", ["RemoveFragment"]),
+    ("WithRepeatedPercentDecoding", ["RepeatedPercentDecoding"]), ("WithDefaultScheme", ["DefaultScheme"]),
+    ("WithSortQuery(SortKeys)", ["SortQuery"]), ("WithSortQuery(SortParameter)", ["SortQuery"])] := by decide
 
 /-- the predefined profiles are built from exactly the documented option lists -/
 theorem C16_profiles : Generated.profileOptions = [
